@@ -245,6 +245,16 @@ class Run:
             return {"case": case, "panic": "crash: " + crash_message(p.stderr), "site": crash_site(p.stderr), "obs": {}}
         return json.loads(open(op, encoding="utf-8").read().strip().split("\n")[0])
 
+    def postprocess(self, obs, fn):
+        """rewrite every observation with fn(record) (used to decode JSON output with an independent parser)"""
+        tmp = obs + ".pp"
+        with open(obs, encoding="utf-8") as f, open(tmp, "w", encoding="utf-8") as g:
+            for l in f:
+                if l.strip():
+                    g.write(json.dumps(fn(json.loads(l)), ensure_ascii=False) + "\n")
+        os.replace(tmp, obs)
+        return obs
+
     # --------------------------------------------------------------- judge
     def judge(self, module, obs, chunk=40000, env=None, timeout=1800):
         """every observation is judged by TLC; returns [(event, rules)]"""
@@ -287,6 +297,46 @@ class Run:
                 res.extend(f)
         log("judge %s: %d events, %d flagged, %.1fs" % (module, n, len(res), time.time() - t))
         return res
+
+
+NULL = "<null>"
+
+
+def denull(v):
+    """TLC's JSON reader has no null: use a sentinel"""
+    if v is None:
+        return NULL
+    if isinstance(v, dict):
+        return {k: denull(x) for k, x in v.items()}
+    if isinstance(v, list):
+        return [denull(x) for x in v]
+    if isinstance(v, float):
+        return int(v) if v == int(v) else str(v)
+    return v
+
+
+def decode_json_fields(ev):
+    """well-formedness of `klog json` output is decided here, by Python's json module; TLC cannot read null,
+    so the two top-level arrays get explicit null flags and any other null becomes a sentinel string"""
+    o = ev.get("obs", {})
+    for raw, dst in (("json_raw", "json"), ("json_pretty_raw", "json_pretty")):
+        if raw in o:
+            try:
+                v = json.loads(o[raw])
+                ok = isinstance(v, dict) and set(v.keys()) == {"records", "errors"}
+            except Exception:
+                v, ok = None, False
+            if ok:
+                o[dst + "_records_null"] = v["records"] is None
+                o[dst + "_errors_null"] = v["errors"] is None
+                o[dst] = denull({"records": v["records"] or [], "errors": v["errors"] or []})
+            else:
+                o[dst + "_records_null"] = True
+                o[dst + "_errors_null"] = True
+                o[dst] = {"records": [], "errors": []}
+            o[dst + "_wellformed"] = ok
+            del o[raw]
+    return ev
 
 
 def truncate(o, lim=600):
